@@ -431,3 +431,52 @@ def r5_9(rep):
     evals = [c for c in b.calls(lambda n: n["k"] == "Call" and str(n.get("callee") or "").endswith("var::parse_macro"))]
     rep.check(bool(evals) and all(c["_i"] > max(r["_i"] for r in exits) for c in evals), "evaluator-after-exit",
               "parse_macro runs after the function-like exit", b.loc(evals[0]) if evals else b.loc(b.root))
+
+
+@RULES.rule("R5.10", "a variable only gets an evaluated value when libclang's evaluator and the emitted type can carry it", floor=2)
+def r5_10(rep):
+    """libclang hands integer results over as `long long` / `unsigned long long` and floating results as `double`.  A 128-bit
+    integer constant is truncated on the way (`const unsigned __int128 big = (unsigned __int128)1 << 100;` became `pub const big:
+    u128 = 0;`), and a `long double` constant is emitted with bindgen's `u128` stand-in for the type and a float literal for the
+    value (`pub const ld: u128 = 1.5;`, which does not compile).  For those kinds `Var::parse` must not evaluate at all (the variable
+    is then declared as an `extern` static)."""
+    from hir import pat_str as _ps
+    prog = rep.prog
+    b = rep.need(prog.impl_fn("parse::ClangSubItemParser", "ir::var::Var", "parse"), "<Var as ClangSubItemParser>::parse")
+    ints = [c for c in b.calls(lambda n: n["k"] == "MCall" and (n.get("callee") or n.get("resolved") or "").endswith("clang::EvalResult::as_int"))]
+    flts = [c for c in b.calls(lambda n: n["k"] == "MCall" and (n.get("callee") or n.get("resolved") or "").endswith("clang::EvalResult::as_double"))]
+    rep.need(ints and flts, "the as_int / as_double evaluations of variable initialisers in Var::parse")
+
+    def excluded(c, wide, narrow):
+        """True when the guards of c show the wide kinds cannot reach it: an enclosing match whose arm for c names none of the wide
+        kinds (and, when it is the catch-all, some other arm names all of them), or a condition that tests the kind."""
+        for pol, kind, g in b.guards(c, nested=True):
+            if kind == "arm":
+                m_, idx = g
+                pats = [_ps(a["pat"]) for a in m_["arms"]]
+                if not any(w in p_ for p_ in pats for w in wide + narrow):
+                    continue
+                mine = pats[idx]
+                others = " ".join(p_ for k_, p_ in enumerate(pats) if k_ != idx)
+                if any(w in mine for w in wide):
+                    return False
+                if any(n in mine for n in narrow) and mine.strip() != "_":
+                    return True
+                return all(w in others for w in wide)
+            if kind == "cond":
+                srcs = [b.canon(g, 8)]
+                for x in b.walk(g):
+                    if x["k"] == "Local" and b.local_init(x["id"]) is not None:
+                        srcs.append(b.canon(b.local_init(x["id"]), 8))
+                if any(w in s_ for s_ in srcs for w in wide + narrow):
+                    return True
+        return False
+    for c in ints:
+        ok = excluded(c, ["IntKind::I128", "IntKind::U128"], [])
+        rep.check(ok, "wide-int-not-evaluated", "128-bit integer kinds are excluded before the 64-bit evaluator is asked" if ok else
+                  "`as_int()` is asked for every integer kind: a 128-bit constant is truncated to 64 bits", b.loc(c))
+    for c in flts:
+        ok = excluded(c, ["FloatKind::LongDouble", "FloatKind::Float128", "FloatKind::Float16"], ["FloatKind::Float|", "FloatKind::Float)", "FloatKind::Double"])
+        rep.check(ok, "wide-float-not-evaluated", "only float / double constants are evaluated" if ok else
+                  "`as_double()` is asked for every floating kind: a `long double` constant gets an f64 literal while its type is emitted as a "
+                  "16-byte integer blob", b.loc(c))
